@@ -309,6 +309,7 @@ func scenFLT(s *sched.Sim, cfg Config, res *Result) {
 			return nb
 		}}
 	}
+	s.Describe(map[string]any{"services": w.ServiceSDL, "gateway": gc.String(), "operation": op.Text, "variables": op.Vars, "note": "fault cases are enumerated in order; the last trace lines show where the run died"})
 	// policy for enumeration passes: a fixed canonical schedule so that call sites are stable
 	s.Policy = sched.Policy{Deviation: 0}
 	done := false
